@@ -1,6 +1,6 @@
 (* Operator overloads of Tensor with Python scalars and between tensors (tensor.py: __add__ ... __rtruediv__).
-   A Python scalar operand is wrapped as a 0-d Tensor; -, / and the reflected forms are expressed through
-   add / mul / pow(-1) exactly as the code does.  x ** -1 is the elementwise inverse [sinv].          *)
+   A Python scalar operand is wrapped as a 0-d Tensor of the tensor's own floating dtype (Tensor._wrap_scalar);
+   -, / and the reflected forms are expressed through add / mul / pow(-1) exactly as the code does.  x ** -1 is the elementwise inverse [sinv].          *)
 From Coq Require Import List Arith ZArith Lia Bool.
 Import ListNotations.
 From SG Require Import Base.Sums Base.ScalarExt Base.Cmp NumPy.Index NumPy.Tensor NumPy.TensorFn NumPy.Broadcast.
